@@ -4,6 +4,7 @@
 //                                         <outbase>.expect = "ok" per line (the Lean driver must agree)
 //   c12 replay  <file>                    run the script lines of <file>, print the observed sequence lines
 //   c12 list                              names of the entry points the generator can call
+//   c12 ctor-own <seed> <n> <outbase> | replay-own <file>      the constructors that take ownership, one call per case (see c12_own.h)
 //
 // Every sequence runs in a forked child; the child reports each call before ("B") and after ("A") on a pipe,
 // so a crash / sanitizer report / hang is attributed to the call that was running.  Legality of a sequence is
@@ -16,6 +17,10 @@
 //    tagged by the running call (sanitizer malloc hook); the report then names the call `fn` that allocated the leaked object and whether that call
 //    had reported an error (path = on-error-path) or returned normally (on-normal-path); outside-calls / unattributed otherwise)
 //   (O1: an index argument was beyond the size of the object it indexes)
+//   two more facts follow O: F<ids|-> the consumed arguments (ownership handed to GEOS) that were passed to the deallocator while the call ran
+//   (sanitizer free hook; a call that is refused must have freed everything it was given), and Q<hits>:<scan>|Q- for GEOSSTRtree_query_r: the
+//   number of callback invocations and the number of inserted, not removed items whose envelope intersects the query envelope (only when all
+//   envelopes involved are finite or null)
 //   Interruption is part of the legal API: the pseudo call `GEOS_interruptRegisterCallback i:<k>` arms the NEXT call of the sequence:
 //   a callback registered with GEOS_interruptRegisterCallback counts the checkpoint polls of that call and calls GEOS_interruptRequest()
 //   at the k-th one; when the call has returned the callback is unregistered and GEOS_interruptCancel() is called.  The armed call must
@@ -26,6 +31,7 @@
 #include "gtree.h"
 #include <geos_c.h>
 #include <geos/geom/Surface.h>
+#include <geos/operation/cluster/Clusters.h>
 #include <cstdarg>
 #include <cfloat>
 #include <climits>
@@ -52,18 +58,21 @@ extern "C" int __sanitizer_install_malloc_and_free_hooks(void (*)(const volatile
 // leak attribution (second pass only): every allocation is tagged with the number of the call that was running (-2: harness code between calls)
 struct AllocRec { uintptr_t p; long call; };
 static const size_t ATAB = (size_t) 1 << 21;
-static AllocRec g_atab[ATAB]; static long g_curCall = -2; static bool g_atabOverflow = false;
+static AllocRec g_atab[ATAB]; static long g_curCall = -2; static bool g_atabOverflow = false; static bool g_tagAllocs = false;
+// consumed arguments of the running call (addresses complemented, see below): did the callee hand them to the deallocator?
+static uintptr_t g_watch[32]; static int g_nwatch = 0; static unsigned g_freedMask = 0;
 // (addresses are stored complemented: the table must not look like a set of pointers to the leak detector)
-static void allocHook(const volatile void* p, size_t) { if (!p) return; uintptr_t k = ~(uintptr_t) p; size_t i = (size_t) ((uintptr_t) p >> 4) & (ATAB - 1);
+static void allocHook(const volatile void* p, size_t) { if (!p || !g_tagAllocs) return; uintptr_t k = ~(uintptr_t) p; size_t i = (size_t) ((uintptr_t) p >> 4) & (ATAB - 1);
     for (size_t n = 0; n < 4096; n++, i = (i + 1) & (ATAB - 1)) if (g_atab[i].p == 0 || g_atab[i].p == k) { g_atab[i].p = k; g_atab[i].call = g_curCall; return; }
     g_atabOverflow = true; }
-static void freeHook(const volatile void*) {}      // an address that is allocated again overwrites its entry; a leaked one is never allocated again
+// (tagging: an address that is allocated again overwrites its entry; a leaked one is never allocated again)
+static void freeHook(const volatile void* p) { if (!g_nwatch) return; uintptr_t k = ~(uintptr_t) p; for (int i = 0; i < g_nwatch; i++) if (g_watch[i] == k) g_freedMask |= 1u << i; }
 static long allocCallOf(uintptr_t a) { uintptr_t k = ~a; size_t i = (size_t) (a >> 4) & (ATAB - 1); for (size_t n = 0; n < 4096; n++, i = (i + 1) & (ATAB - 1)) { if (g_atab[i].p == k) return g_atab[i].call; if (g_atab[i].p == 0) break; } return -3; }
 extern "C" const char* __lsan_default_options() { return "exitcode=23:print_suppressions=0:report_objects=1"; }
 extern "C" const char* __ubsan_default_options() { return "print_stacktrace=1"; }
 
 // ----------------------------------------------------------------------------------------------- slots (mirror of the heap model)
-enum K { GEOM, CS, PREP, TREE, WKTR, WKTW, WKBR, WKBW, JSONR, JSONW, BUFP, MVP, BUF };
+enum K { GEOM, CS, PREP, TREE, WKTR, WKTW, WKBR, WKBW, JSONR, JSONW, BUFP, MVP, BUF, CLUSTER };
 
 struct Slot {
     K kind; void* p; bool live; int owner; std::vector<int> borrows; std::string img;
@@ -129,7 +138,7 @@ static PSpec pspec(const std::string& c) {
         {"wkbr", {WKBR, 'm'}}, {"wkbrX", {WKBR, 'x'}}, {"wkbw", {WKBW, 'm'}}, {"wkbwc", {WKBW, 'c'}}, {"wkbwX", {WKBW, 'x'}},
         {"jr", {JSONR, 'm'}}, {"jrX", {JSONR, 'x'}}, {"jw", {JSONW, 'm'}}, {"jwX", {JSONW, 'x'}},
         {"bp", {BUFP, 'm'}}, {"bpc", {BUFP, 'c'}}, {"bpX", {BUFP, 'x'}}, {"mvp", {MVP, 'm'}}, {"mvpc", {MVP, 'c'}}, {"mvpX", {MVP, 'x'}},
-        {"bufX", {BUF, 'x'}}, {"item", {GEOM, 'r'}} };
+        {"bufX", {BUF, 'x'}}, {"item", {GEOM, 'r'}}, {"ci", {CLUSTER, 'c'}}, {"ciX", {CLUSTER, 'x'}} };
     auto it = M.find(c);
     if (it != M.end()) { p.isObj = true; p.kind = it->second.first; p.mode = it->second.second; return p; }
     if (c == "g?") { p.isObj = true; p.kind = GEOM; p.mode = 'c'; return p; }
@@ -250,6 +259,7 @@ static std::string hexs(const std::string& s) { return hexbytes((const unsigned 
 static std::string unhex(const std::string& h) { std::string o; for (size_t i = 0; i + 1 < h.size(); i += 2) o.push_back((char) std::stoi(h.substr(i, 2), nullptr, 16)); return o; }
 
 // ----------------------------------------------------------------------------------------------- callbacks
+static long g_lastHits = -1;     // callback invocations of the last GEOSSTRtree_query_r
 static void qcb(void* item, void* ud) { ((std::vector<void*>*) ud)->push_back(item); }
 static int xycb(double* x, double* y, void* ud) { long m = (long) (intptr_t) ud; if (m == 1) { *x += 1; *y -= 1; } else if (m == 2) { *x = NAN; } else if (m == 3) return 0; return 1; }
 static int xyzcb(double* x, double* y, double* z, void* ud) { long m = (long) (intptr_t) ud; if (m == 1) { *x += 1; *y -= 1; *z = 7; } else if (m == 3) return 0; return 1; }
@@ -368,7 +378,7 @@ static void registerAll() {
     MKCS(GEOSGeom_createPoint_r) MKCS(GEOSGeom_createLineString_r) MKCS(GEOSGeom_createLinearRing_r) MKCS(GEOSGeom_createCircularString_r)
     reg("GEOSGeom_createPolygon_r", "gX gZ n", "create", 4, [](Ctx& c, std::vector<Val>& a) { auto v = c.GA(A(1)); return rGeom(GEOSGeom_createPolygon_r(H, c.G(A(0)), v.data(), (unsigned) v.size())); });
     reg("GEOSGeom_createCurvePolygon_r", "gX gZ n", "create", 3, [](Ctx& c, std::vector<Val>& a) { auto v = c.GA(A(1)); return rGeom(GEOSGeom_createCurvePolygon_r(H, c.G(A(0)), v.data(), (unsigned) v.size())); });
-    reg("GEOSGeom_createCollection_r", "i gZ n", "create", 4, [](Ctx& c, std::vector<Val>& a) { auto v = c.GA(A(1)); return rGeom(GEOSGeom_createCollection_r(H, (int) A(0).i, v.data(), (unsigned) v.size())); });
+    reg("GEOSGeom_createCollection_r", "ict gZ n", "create", 4, [](Ctx& c, std::vector<Val>& a) { auto v = c.GA(A(1)); return rGeom(GEOSGeom_createCollection_r(H, (int) A(0).i, v.data(), (unsigned) v.size())); });
     reg("GEOSGeom_createCompoundCurve_r", "gZ n", "create", 3, [](Ctx& c, std::vector<Val>& a) { auto v = c.GA(A(0)); return rGeom(GEOSGeom_createCompoundCurve_r(H, v.data(), (unsigned) v.size())); });
     reg("GEOSGeom_destroy_r", "gX", "destroy", 4, [](Ctx& c, std::vector<Val>& a) { GEOSGeom_destroy_r(H, c.G(A(0))); return rVoid(); });
     reg("GEOSFree_r", "bufX", "destroy", 6, [](Ctx& c, std::vector<Val>& a) { GEOSFree_r(H, c.P(A(0))); return rVoid(); });
@@ -413,7 +423,7 @@ static void registerAll() {
     reg("GEOSSTRtree_create_r", "iq", "tree", 4, [](Ctx& c, std::vector<Val>& a) { return rPtr(TREE, GEOSSTRtree_create_r(H, (size_t) (unsigned) A(0).i)); });
     reg("GEOSSTRtree_insert_r", "tree g item", "tree", 8, [](Ctx& c, std::vector<Val>& a) { GEOSSTRtree_insert_r(H, (GEOSSTRtree*) c.P(A(0)), c.G(A(1)), c.P(A(2))); return rVoid(); });
     reg("GEOSSTRtree_build_r", "tree", "tree", 2, [](Ctx& c, std::vector<Val>& a) { return rInt(GEOSSTRtree_build_r(H, (GEOSSTRtree*) c.P(A(0)))); });
-    reg("GEOSSTRtree_query_r", "tree g _ _", "tree", 4, [](Ctx& c, std::vector<Val>& a) { std::vector<void*> r; GEOSSTRtree_query_r(H, (GEOSSTRtree*) c.P(A(0)), c.G(A(1)), qcb, &r); return rVoid(); });
+    reg("GEOSSTRtree_query_r", "tree g _ _", "tree", 4, [](Ctx& c, std::vector<Val>& a) { std::vector<void*> r; GEOSSTRtree_query_r(H, (GEOSSTRtree*) c.P(A(0)), c.G(A(1)), qcb, &r); g_lastHits = (long) r.size(); return rVoid(); });
     reg("GEOSSTRtree_iterate_r", "tree _ _", "tree", 2, [](Ctx& c, std::vector<Val>& a) { std::vector<void*> r; GEOSSTRtree_iterate_r(H, (GEOSSTRtree*) c.P(A(0)), qcb, &r); return rVoid(); });
     reg("GEOSSTRtree_nearest_r", "tree g", "tree", 4, [](Ctx& c, std::vector<Val>& a) { return rView(GEOM, GEOSSTRtree_nearest_r(H, (GEOSSTRtree*) c.P(A(0)), c.G(A(1)))); });
     reg("GEOSSTRtree_nearest_generic_r", "tree item g _ _", "tree", 2, [](Ctx& c, std::vector<Val>& a) {
@@ -461,6 +471,18 @@ static void registerAll() {
     reg("GEOSGeoJSONWriter_create_r", "", "io", 2, [](Ctx& c, std::vector<Val>&) { return rPtr(JSONW, GEOSGeoJSONWriter_create_r(H)); });
     reg("GEOSGeoJSONWriter_destroy_r", "jwX", "destroy", 1, [](Ctx& c, std::vector<Val>& a) { GEOSGeoJSONWriter_destroy_r(H, (GEOSGeoJSONWriter*) c.P(A(0))); return rVoid(); });
     reg("GEOSGeoJSONWriter_writeGeometry_r", "jw g i", "io", 4, [](Ctx& c, std::vector<Val>& a) { return rPtr(BUF, GEOSGeoJSONWriter_writeGeometry_r(H, (GEOSGeoJSONWriter*) c.P(A(0)), c.G(A(1)), (int) A(2).i)); });
+    // ---- clustering: a cluster-information object owns the index arrays it hands out
+#define CLU(f, spec, call) reg(#f, spec, "cluster", 1, [](Ctx& c, std::vector<Val>& a) { return rPtr(CLUSTER, call); });
+    CLU(GEOSClusterDBSCAN_r, "g d iq", GEOSClusterDBSCAN_r(H, c.G(A(0)), A(1).d, (unsigned) A(2).i))
+    CLU(GEOSClusterGeometryDistance_r, "g d", GEOSClusterGeometryDistance_r(H, c.G(A(0)), A(1).d))
+    CLU(GEOSClusterGeometryIntersects_r, "g", GEOSClusterGeometryIntersects_r(H, c.G(A(0))))
+    CLU(GEOSClusterEnvelopeDistance_r, "g d", GEOSClusterEnvelopeDistance_r(H, c.G(A(0)), A(1).d))
+    CLU(GEOSClusterEnvelopeIntersects_r, "g", GEOSClusterEnvelopeIntersects_r(H, c.G(A(0))))
+    reg("GEOSClusterInfo_getNumClusters_r", "ci", "cluster", 1, [](Ctx& c, std::vector<Val>& a) { return rInt((long) GEOSClusterInfo_getNumClusters_r(H, (const GEOSClusterInfo*) c.P(A(0)))); });
+    reg("GEOSClusterInfo_getClusterSize_r", "ci i", "cluster", 1, [](Ctx& c, std::vector<Val>& a) { return rInt((long) GEOSClusterInfo_getClusterSize_r(H, (const GEOSClusterInfo*) c.P(A(0)), (size_t) A(1).i)); });
+    reg("GEOSClusterInfo_getInputsForClusterN_r", "ci i", "cluster", 1, [](Ctx& c, std::vector<Val>& a) { return rView(BUF, GEOSClusterInfo_getInputsForClusterN_r(H, (const GEOSClusterInfo*) c.P(A(0)), (size_t) A(1).i)); });
+    reg("GEOSClusterInfo_getClustersForInputs_r", "ci", "cluster", 1, [](Ctx& c, std::vector<Val>& a) { return rPtr(BUF, GEOSClusterInfo_getClustersForInputs_r(H, (const GEOSClusterInfo*) c.P(A(0)))); });
+    reg("GEOSClusterInfo_destroy_r", "ciX", "destroy", 1, [](Ctx& c, std::vector<Val>& a) { GEOSClusterInfo_destroy_r(H, (GEOSClusterInfo*) c.P(A(0))); return rVoid(); });
     // ---- interruption (global, non-reentrant part of the API): arms the next call of the sequence, see the head of this file
     reg("GEOS_interruptRegisterCallback", "ik", "interrupt", 0, [](Ctx& c, std::vector<Val>& a) { (void) c; g_pendingArm = A(0).i > 0 ? A(0).i : 0; return rVoid(); });
     // ---- parameter objects
@@ -487,7 +509,7 @@ static std::string imageOf(const Slot& s) {
     } catch (std::exception& e) { return std::string("image-exception:") + e.what(); }
     return "";
 }
-static const char* KNAME[] = {"geom", "cs", "prep", "tree", "wktr", "wktw", "wkbr", "wkbw", "jsonr", "jsonw", "bufp", "mvp", "buf"};
+static const char* KNAME[] = {"geom", "cs", "prep", "tree", "wktr", "wktw", "wkbr", "wkbw", "jsonr", "jsonw", "bufp", "mvp", "buf", "cluster"};
 
 // known big family: an index parameter beyond the size of the object it indexes (used to name the class, not to avoid it)
 static bool oobIndex(const Fn& f, const Ctx& c, const std::vector<Val>& a) {
@@ -499,6 +521,8 @@ static bool oobIndex(const Fn& f, const Ctx& c, const std::vector<Val>& a) {
             if (f.name == "GEOSGetInteriorRingN_r") { auto su = dynamic_cast<const Surface*>(g); return su && (size_t) n >= su->getNumInteriorRing(); }
             auto sc = dynamic_cast<const SimpleCurve*>(g); return sc && (size_t) n >= sc->getNumPoints();
         }
+        if (f.name == "GEOSClusterInfo_getClusterSize_r" || f.name == "GEOSClusterInfo_getInputsForClusterN_r") {
+            auto cl = (const geos::operation::cluster::Clusters*) c.slots[a[0].id].p; return (size_t) a[1].i >= cl->getNumClusters(); }
         if (f.name.rfind("GEOSCoordSeq_get", 0) == 0 || f.name.rfind("GEOSCoordSeq_set", 0) == 0) {
             if (f.spec.size() < 2 || f.spec[1] != "i") return false;
             const CoordinateSequence* cs = (const CoordinateSequence*) c.slots[a[0].id].p; return (size_t) (unsigned) a[1].i >= cs->size();
@@ -514,6 +538,13 @@ struct Exec {
     std::map<int, int> name2slot;             // script result names -> actual slot ids (replay); identity in generation
     std::map<std::string, long> istat;        // interruption statistics
     long lastPolls = 0;                       // checkpoint polls seen during the last armed call
+    // mirror of the contents of every tree (for the Q fact): envelope given at insertion, item address (complemented), usable flag
+    struct TreeItem { double x0, y0, x1, y1; bool null, finite; uintptr_t item; };
+    struct TreeMirror { std::vector<TreeItem> items; bool unsure = false; bool built = false; };
+    std::map<int, TreeMirror> trees;
+    static TreeItem envItem(const GEOSGeometry* g, const void* item) { const geos::geom::Envelope* en = ((const geos::geom::Geometry*) g)->getEnvelopeInternal(); TreeItem t;
+        t.null = en->isNull(); t.x0 = t.y0 = t.x1 = t.y1 = 0; if (!t.null) { t.x0 = en->getMinX(); t.y0 = en->getMinY(); t.x1 = en->getMaxX(); t.y1 = en->getMaxY(); }
+        t.finite = t.null || (std::isfinite(t.x0) && std::isfinite(t.y0) && std::isfinite(t.x1) && std::isfinite(t.y1)); t.item = ~(uintptr_t) item; return t; }
     bool leakAttr = false;                    // second pass over a leaking sequence: allocations are tagged with the running call; one marker per call on stderr
     void leakMark(long no, const std::string& fn, int msgs) { std::string m = "\n@@CALL " + std::to_string(no) + " " + fn + " " + std::to_string(msgs) + "\n";
         if (write(2, m.data(), m.size()) < 0) _exit(97); }
@@ -532,6 +563,8 @@ struct Exec {
 
     // the mirror of `legal` for the object arguments of one call
     bool legalArgs(const Fn& f, const std::vector<Val>& a) const {
+        // documented precondition: once a tree was built (build / query / nearest / remove) "no more items may be added"
+        if (f.name == "GEOSSTRtree_insert_r" && !a.empty() && a[0].k == 'o') { auto it = trees.find(a[0].id); if (it != trees.end() && it->second.built) return false; }
         std::vector<int> excl, ro;
         for (size_t k = 0; k < f.spec.size(); k++) {
             PSpec p = pspec(f.spec[k]); if (!p.isObj) continue;
@@ -568,11 +601,27 @@ struct Exec {
             for (int i : ids) { if (firstObj < 0) firstObj = i; if (p.mode == 'x') consumed.push_back(i); else if (p.mode == 'm') mutated.push_back(i); else if (p.mode == 'r') retained.push_back(c.root(i)); } }
         int ownerOfView = firstObj >= 0 ? c.root(firstObj) : -1;
         g_msgs = 0;
+        // consumed geometries / coordinate sequences: watched by the free hook while the call runs
+        std::vector<int> watched; g_nwatch = 0; g_freedMask = 0;
+        for (int i : consumed) if ((c.slots[i].kind == GEOM || c.slots[i].kind == CS) && g_nwatch < 32) { g_watch[g_nwatch++] = ~(uintptr_t) c.slots[i].p; watched.push_back(i); }
+        // GEOSSTRtree_query_r: what a scan of the inserted items gives
+        std::string Q = "Q-"; TreeItem qenv{}; bool isQuery = f.name == "GEOSSTRtree_query_r", isInsert = f.name == "GEOSSTRtree_insert_r", isRemove = f.name == "GEOSSTRtree_remove_r";
+        if (isQuery || isInsert || isRemove) qenv = envItem(c.G(a[1]), isQuery ? nullptr : c.P(a[2]));
+        g_lastHits = -1;
         if (arm > 0) { g_armK = arm; g_polls = 0; g_fired = 0; GEOS_interruptCancel(); GEOS_interruptRegisterCallback(interruptcb); }
         g_curCall = no;
         Ret r = f.call(c, a);
         g_curCall = -2;
         int msgs = g_msgs;
+        unsigned freedMask = g_freedMask; g_nwatch = 0; for (auto& w : g_watch) w = 0;
+        std::string F = "F"; { bool anyF = false; for (size_t i = 0; i < watched.size(); i++) if (freedMask & (1u << i)) { F += (anyF ? "," : "") + std::to_string(watched[i]); anyF = true; } if (!anyF) F += "-"; }
+        if (isInsert && !msgs) trees[a[0].id].items.push_back(qenv);
+        if ((f.name == "GEOSSTRtree_build_r" || isQuery || isRemove || f.name == "GEOSSTRtree_nearest_r" || f.name == "GEOSSTRtree_nearest_generic_r") && a[0].k == 'o') trees[a[0].id].built = true;
+        if (isRemove) { TreeMirror& tm = trees[a[0].id]; if (msgs) tm.unsure = true; else if (r.ival == 1) { std::vector<size_t> cand; for (size_t i = 0; i < tm.items.size(); i++) if (tm.items[i].item == qenv.item) cand.push_back(i);
+            if (cand.size() == 1) tm.items.erase(tm.items.begin() + (long) cand[0]); else tm.unsure = true; } }
+        if (isQuery && !msgs && arm == 0 && g_lastHits >= 0) { TreeMirror& tm = trees[a[0].id]; bool usable = !tm.unsure && qenv.finite; long scan = 0;
+            for (auto& t : tm.items) { if (!t.finite) usable = false; if (!t.null && !qenv.null && !(t.x0 > qenv.x1 || t.x1 < qenv.x0 || t.y0 > qenv.y1 || t.y1 < qenv.y0)) scan++; }
+            if (usable) Q = "Q" + std::to_string(g_lastHits) + ":" + std::to_string(scan); }
         if (arm > 0) { GEOS_interruptRegisterCallback(nullptr); GEOS_interruptCancel(); g_armK = 0; lastPolls = g_polls;
             istat["interrupt_armed_calls"]++; istat["interrupt_polls_seen"] += g_polls; if (g_polls) istat["interrupt_armed_calls_that_poll"]++;
             if (g_fired) { istat["interrupt_requested"]++; istat[msgs ? "interrupt_ended_with_error_and_message" : "interrupt_absorbed_call_completed"]++; } }
@@ -581,7 +630,10 @@ struct Exec {
         for (size_t i = 0; i < c.slots.size(); i++) { Slot& s = c.slots[i]; if (!s.live) continue;
             if (std::find(consumed.begin(), consumed.end(), (int) i) != consumed.end()) s.live = false;
             else if (std::find(mutated.begin(), mutated.end(), (int) i) != mutated.end()) s.borrows.insert(s.borrows.end(), retained.begin(), retained.end());
-            else if (s.owner >= 0 && ex.count(s.owner)) s.live = false; }
+            else if (s.owner >= 0 && ex.count(s.owner)) s.live = false;
+            // the address of a dead object is forgotten: an object that GEOS was given and did not free must not stay reachable from this table
+            // (the leak detector reports unreachable memory only)
+            if (!s.live) { s.p = nullptr; if (s.kind == TREE) trees.erase((int) i); } }
         // ---- result slots
         std::string rtok;
         switch (r.cls) { case 'p': rtok = r.null ? "p0" : "p1"; break; case 'c': rtok = "c:" + std::to_string(r.ival); break; case 'i': rtok = "i:" + std::to_string(r.ival); break;
@@ -607,7 +659,7 @@ struct Exec {
             if (!isNew && im != s.img) { M += (any ? "," : "") + std::to_string(i); any = true; }
             s.img = im; }
         if (!any) M += "-";
-        put("A " + rtok + " m" + (msgs ? "1" : "0") + " " + R + " " + alias + " " + srid + " " + M + (oob ? " O1" : " O0"));
+        put("A " + rtok + " m" + (msgs ? "1" : "0") + " " + R + " " + alias + " " + srid + " " + M + (oob ? " O1" : " O0") + " " + F + " " + Q);
         if (leakAttr) leakMark(no, f.name, msgs ? 1 : 0);
         return true;
     }
@@ -635,7 +687,7 @@ struct Gen {
             case 3: return "POINT (1 1 " + w + ")";                        // a word where ) or , is expected
             case 4: return "POLYGON ((0 0, 1 0, 1 1, 0 0) " + w;           // a word where ) is expected
             case 5: return "POINT (1." + std::string(n, '0') + "1 2)";     // valid: a very long number
-            case 6: { std::string t = "LINESTRING ("; for (size_t i = 0; i < n / 12 + 2; i++) { if (i) t += ", "; t += std::to_string(i % 97) + " " + std::to_string((i * 7) % 89); } return t + ")"; }   // valid: many vertices
+            case 6: { std::string t = "LINESTRING ("; for (size_t i = 0; i < std::min<size_t>(n / 12 + 2, 200); i++) { if (i) t += ", "; t += std::to_string(i % 97) + " " + std::to_string((i * 7) % 89); } return t + ")"; }   // valid: many vertices (capped: this zigzag crosses itself ~k^2/4 times, and operations whose OUTPUT is quadratic in k cannot be "prompt" for thousands of vertices)
             default: return "GEOMETRYCOLLECTION (POINT (1 1), " + w + " EMPTY)"; }
         if (kind == "json") switch (r.below(5)) {
             case 0: return "{\"type\":\"" + w + "\",\"coordinates\":[1,2]}";
@@ -704,6 +756,7 @@ struct Gen {
                     lastI = fi; double fr = r.chance(15) ? r.unit() * 1.4 - 0.2 : FPOOL[fi];
                     a[k].d = isx ? ex0 + fr * (ex1 - ex0) : ey0 + fr * (ey1 - ey0); } }
             else if (code == "i") { a[k].k = 'i'; a[k].i = r.chance(30) ? r.range(-2, 9) : IPOOL[r.below(sizeof IPOOL / sizeof IPOOL[0])]; }
+            else if (code == "ict") { static const long CT[] = {4, 5, 6, 7, 11, 12}; a[k].k = 'i'; a[k].i = r.chance(65) ? CT[r.below(6)] : r.chance(30) ? r.range(-2, 14) : IPOOL[r.below(sizeof IPOOL / sizeof IPOOL[0])]; }   // collection type: mostly a collection type id
             else if (code == "i01") { a[k].k = 'i'; a[k].i = (long) r.below(2); }   // enum-TYPED C parameter: only its enumerators (listed exclusion)
             else if (code == "iq") { a[k].k = 'i'; a[k].i = r.chance(30) ? r.range(0, 6) : QPOOL[r.below(sizeof QPOOL / sizeof QPOOL[0])]; }
             else if (code.rfind("s:", 0) == 0) { a[k].k = 's'; a[k].s = str(code.substr(2)); }
@@ -714,7 +767,7 @@ struct Gen {
     void destroyAll() {   // borrowers first, then everything caller-owned; views die with their parents
         static const std::map<K, const char*> D = { {GEOM, "GEOSGeom_destroy_r"}, {CS, "GEOSCoordSeq_destroy_r"}, {PREP, "GEOSPreparedGeom_destroy_r"}, {TREE, "GEOSSTRtree_destroy_r"},
             {WKTR, "GEOSWKTReader_destroy_r"}, {WKTW, "GEOSWKTWriter_destroy_r"}, {WKBR, "GEOSWKBReader_destroy_r"}, {WKBW, "GEOSWKBWriter_destroy_r"}, {JSONR, "GEOSGeoJSONReader_destroy_r"},
-            {JSONW, "GEOSGeoJSONWriter_destroy_r"}, {BUFP, "GEOSBufferParams_destroy_r"}, {MVP, "GEOSMakeValidParams_destroy_r"}, {BUF, "GEOSFree_r"} };
+            {JSONW, "GEOSGeoJSONWriter_destroy_r"}, {BUFP, "GEOSBufferParams_destroy_r"}, {MVP, "GEOSMakeValidParams_destroy_r"}, {BUF, "GEOSFree_r"}, {CLUSTER, "GEOSClusterInfo_destroy_r"} };
         for (int round = 0; round < 4; round++)
             for (int i = (int) e.c.slots.size() - 1; i >= 0; i--) { if (!e.c.exclOk(i)) continue;
                 const Fn& f = FNS[FNIDX[D.at(e.c.slots[i].kind)]]; std::vector<Val> a(1); a[0].k = 'o'; a[0].id = i; e.doCall(f, a, {}); }
@@ -738,7 +791,7 @@ struct Gen {
     }
     // armPct: how often the call is interrupted (half blind k from the pool, half targeted)
     bool callMaybeArmed(const Fn& f, std::vector<Val>& a, int armPct) { if (interruptible(f) && r.chance(armPct)) { if (r.chance(50)) return callProbed(f, a); arm(); } return e.doCall(f, a, {}); }
-    bool interruptible(const Fn& f) const { return f.cat == "pred" || f.cat == "constr" || f.cat == "prep" || f.cat == "measure" || f.cat == "mutate" || f.cat == "io" || f.cat == "tree" || f.cat == "create"; }
+    bool interruptible(const Fn& f) const { return f.cat == "pred" || f.cat == "constr" || f.cat == "prep" || f.cat == "measure" || f.cat == "mutate" || f.cat == "io" || f.cat == "tree" || f.cat == "create" || f.cat == "cluster"; }
     int forceGeom = -1;       // pick(): use this object for the first read-only geometry parameter
     int envPct = 65;          // pick(): how often coordinate-like parameters are placed relative to the envelope of the geometry argument
     // a call of `fn` with arguments chosen by pick(), its first geometry argument being `gid`; armed with probability armPct
@@ -788,6 +841,116 @@ struct Gen {
         auto gs = liveOf(GEOM, false, {}); if (gs.size() >= 1 && r.chance(60)) call1("GEOSRelatePattern_r", {O(gs[0]), O(gs[gs.size() - 1]), S(longText("pat"))});
         stat["scenario_longtext"]++;
     }
+    static Val D(double d) { Val v; v.k = 'd'; v.d = d; return v; }
+    static Val ARR(const std::vector<int>& ids) { Val v; v.k = 'a'; v.ids = ids; return v; }
+    static Val U() { return Val(); }
+    int lit(const std::string& wkt) { return call1("GEOSGeomFromWKT_r", {S(wkt)}); }
+    // a coordinate sequence of n points (2 or 3 dimensions); closed: the last point repeats the first
+    int seqOf(int n, bool closed) { int cs = call1("GEOSCoordSeq_create_r", {I(n), I(r.chance(80) ? 2 : 3)}); if (cs < 0) return -1;
+        for (int i = 0; i < n; i++) { bool lastPt = closed && i == n - 1 && n > 1; double x = lastPt ? 0 : (double) (i % 3) * 4 + (i / 3), y = lastPt ? 0 : (double) ((i + 1) % 3) * 3 - (i / 3);
+            if (i == 0) { x = 0; y = 0; } call1("GEOSCoordSeq_setXY_r", {O(cs), I(i), D(x), D(y)}); }
+        return cs; }
+    // ---- ownership on refusal: every constructor that takes ownership of its arguments is called with argument lists that it accepts and
+    // with lists it must refuse (a member of the wrong class at position k of n, an empty shell with holes, sections that do not join, a sequence
+    // of the wrong size / not closed).  Refused or not, the arguments are gone for the caller: GEOS must have freed them (F fact, leak check).
+    void scenarioCtorOwnership() {
+        static const char* PT[] = {"POINT (1 2)", "POINT EMPTY", "POINT Z (1 2 3)"};
+        static const char* LS[] = {"LINESTRING (0 0, 5 5)", "LINESTRING EMPTY", "LINESTRING (5 5, 9 0, 9 9)", "LINEARRING (0 0, 4 0, 4 4, 0 0)"};
+        static const char* RG[] = {"LINEARRING (0 0, 40 0, 40 40, 0 40, 0 0)", "LINEARRING (1 1, 2 1, 2 2, 1 1)", "LINEARRING (5 5, 6 5, 6 6, 5 5)", "LINEARRING EMPTY", "LINEARRING (10 10, 12 10, 12 12, 10 10)"};
+        static const char* PG[] = {"POLYGON ((0 0, 10 0, 10 10, 0 10, 0 0))", "POLYGON EMPTY", "POLYGON ((0 0, 10 0, 10 10, 0 10, 0 0), (2 2, 4 2, 4 4, 2 4, 2 2))"};
+        static const char* CU[] = {"CIRCULARSTRING (0 0, 1 1, 2 0)", "COMPOUNDCURVE (CIRCULARSTRING (0 0, 1 1, 2 0), (2 0, 3 0))", "LINESTRING (2 0, 3 3)", "CIRCULARSTRING EMPTY", "CIRCULARSTRING (0 0, 2 2, 4 0, 2 -2, 0 0)"};
+        static const char* SU[] = {"CURVEPOLYGON (CIRCULARSTRING (0 0, 1 1, 2 0, 1 -1, 0 0))", "POLYGON ((0 0, 1 0, 1 1, 0 0))", "CURVEPOLYGON EMPTY"};
+        static const char* OTHER[] = {"MULTIPOINT ((0 0), (5 5))", "GEOMETRYCOLLECTION (POINT (1 1))", "GEOMETRYCOLLECTION EMPTY", "MULTIPOLYGON EMPTY", "MULTILINESTRING ((0 0, 1 1))", "MULTICURVE ((0 0, 1 1))", "MULTISURFACE EMPTY"};
+        struct Cls { const char** v; int n; }; const Cls CLS[] = {{PT, 3}, {LS, 4}, {RG, 5}, {PG, 3}, {CU, 5}, {SU, 3}, {OTHER, 7}};
+        auto any = [&](int cls) { return lit(CLS[cls].v[r.below((uint64_t) CLS[cls].n)]); };
+        auto other = [&](int cls) { int o = (int) r.below(7); if (o == cls) o = (o + 1 + (int) r.below(6)) % 7; return any(o); };
+        // n members of class cls; with probability badPct the member at a uniformly chosen position is of another class
+        auto members = [&](int cls, int n, int badPct) { std::vector<int> ids; int bad = r.chance(badPct) && n > 0 ? (int) r.below((uint64_t) n) : -1;
+            for (int i = 0; i < n; i++) { int id = i == bad ? other(cls) : any(cls); if (id >= 0) ids.push_back(id); } return ids; };
+        int rounds = r.range(3, 7);
+        for (int round = 0; round < rounds; round++) {
+            switch (r.below(8)) {
+            case 0: case 1: { static const int T[][2] = {{4, 0}, {5, 1}, {6, 3}, {11, 4}, {12, 5}, {7, 6}}; auto& t = T[r.below(6)]; int n = r.range(1, 4);
+                auto ids = members(t[1], n, 70); long type = r.chance(12) ? (long) r.range(-1, 14) : (long) t[0];
+                call1("GEOSGeom_createCollection_r", {I(type), ARR(ids), I((long) ids.size())}); stat["ctor_collection"]++; break; }
+            case 2: { int shell = r.chance(30) ? other(2) : any(2); if (shell < 0) break; auto holes = members(2, r.range(0, 3), 55);
+                call1("GEOSGeom_createPolygon_r", {O(shell), ARR(holes), I((long) holes.size())}); stat["ctor_polygon"]++; break; }
+            case 3: { int shell = r.chance(30) ? any(r.chance(50) ? 0 : 3) : any(r.chance(50) ? 2 : 4); if (shell < 0) break; std::vector<int> holes; int n = r.range(0, 3), bad = r.chance(55) && n ? (int) r.below((uint64_t) n) : -1;
+                for (int i = 0; i < n; i++) { int id = i == bad ? any(r.chance(50) ? 0 : 5) : any(r.chance(50) ? 2 : 4); if (id >= 0) holes.push_back(id); }
+                call1("GEOSGeom_createCurvePolygon_r", {O(shell), ARR(holes), I((long) holes.size())}); stat["ctor_curvepolygon"]++; break; }
+            case 4: { // sections that join end to start, one of them possibly of another class / not joining / empty
+                int n = r.range(1, 4), bad = r.chance(65) ? (int) r.below((uint64_t) n) : -1; std::vector<int> ids;
+                for (int i = 0; i < n; i++) { std::string w; double x = 4.0 * i;
+                    if (i == bad) { switch (r.below(4)) { case 0: w = "POINT (0 0)"; break; case 1: w = "LINESTRING (100 100, 101 101)"; break; case 2: w = "LINESTRING EMPTY"; break; default: w = "COMPOUNDCURVE ((0 0, 4 0))"; } }
+                    else if (r.chance(50)) w = "LINESTRING (" + num(x) + " 0, " + num(x + 4) + " 0)"; else w = "CIRCULARSTRING (" + num(x) + " 0, " + num(x + 2) + " 2, " + num(x + 4) + " 0)";
+                    int id = lit(w); if (id >= 0) ids.push_back(id); }
+                call1("GEOSGeom_createCompoundCurve_r", {ARR(ids), I((long) ids.size())}); stat["ctor_compoundcurve"]++; break; }
+            default: { static const char* F[] = {"GEOSGeom_createPoint_r", "GEOSGeom_createLineString_r", "GEOSGeom_createLinearRing_r", "GEOSGeom_createCircularString_r"};
+                int n = r.range(0, 6); int cs = seqOf(n, r.chance(50)); if (cs < 0) break; call1(F[r.below(4)], {O(cs)}); stat["ctor_from_sequence"]++; break; }
+            }
+        }
+        stat["scenario_ctor_ownership"]++;
+    }
+    // ---- a tree with a boundary node capacity and 0..30 items: build, query windows, nearest, iterate, remove, repeated insertion of one item before the build
+    void scenarioTree() {
+        static const long CAP[] = {2, 2, 3, 4, 4, 5, 10, 10, 16, 0, 0, 1, -1, INT_MIN, 100, 2, 3, 10, 4, 6, 7, 8, 9, 10, 2};
+        int t = call1("GEOSSTRtree_create_r", {I(CAP[r.below(sizeof CAP / sizeof CAP[0])])}); if (t < 0) return;
+        static const int NI[] = {0, 1, 2, 3, 5, 10, 30}; int n = NI[r.below(7)]; std::vector<int> items;
+        for (int i = 0; i < n; i++) { int g; double x = (double) ((i * 7) % 23), y = (double) ((i * 5) % 17);
+            if (r.chance(8)) g = lit("POINT EMPTY"); else if (r.chance(60)) g = call1("GEOSGeom_createPointFromXY_r", {D(x), D(y)}); else g = call1("GEOSGeom_createRectangle_r", {D(x), D(y), D(x + 3), D(y + 2)});
+            if (g < 0) continue; items.push_back(g); call1("GEOSSTRtree_insert_r", {O(t), O(g), O(g)}); }
+        // the documentation of query / nearest / remove: "The tree will automatically be constructed if necessary, after which no more items
+        // may be added" -- an insertion after the tree was built breaks a documented precondition and is not generated
+        bool built = false;
+        if (r.chance(40)) { call1("GEOSSTRtree_build_r", {O(t)}); built = true; }
+        int q = call1("GEOSGeom_createRectangle_r", {D(-1), D(-1), D(40), D(40)}); int q2 = call1("GEOSGeom_createRectangle_r", {D(3), D(2), D(11), D(9)}); int q3 = lit("POINT (7 1)");
+        int ops = r.range(3, 8);
+        for (int i = 0; i < ops; i++) { int qq = r.chance(40) ? q : r.chance(50) ? q2 : q3; if (qq < 0) continue;
+            switch (r.below(6)) {
+            case 0: case 1: call1("GEOSSTRtree_query_r", {O(t), O(qq), U(), U()}); built = true; break;
+            case 2: call1("GEOSSTRtree_nearest_r", {O(t), O(qq)}); built = true; break;
+            case 3: call1("GEOSSTRtree_iterate_r", {O(t), U(), U()}); built = true; break;
+            case 4: if (!items.empty()) { int it = items[r.below(items.size())]; call1("GEOSSTRtree_remove_r", {O(t), O(it), O(it)}); built = true; } break;
+            default: if (!items.empty() && !built) { int it = items[r.below(items.size())]; call1("GEOSSTRtree_insert_r", {O(t), O(it), O(it)}); } break; } }
+        if (q >= 0) call1("GEOSSTRtree_query_r", {O(t), O(q), U(), U()});
+        stat["scenario_tree"]++;
+    }
+    // ---- clustering of a collection; cluster indices at and around the number of clusters
+    void scenarioCluster() {
+        static const char* C[] = {"MULTIPOINT ((0 0), (1 0), (10 10), (11 10), (30 30))", "GEOMETRYCOLLECTION (POINT (0 0), LINESTRING (0 0, 5 5), POLYGON ((20 20, 30 20, 30 30, 20 20)), POINT (25 22))",
+            "GEOMETRYCOLLECTION EMPTY", "POINT (1 1)", "MULTIPOLYGON (((0 0, 3 0, 3 3, 0 3, 0 0)), ((2 2, 8 2, 8 8, 2 8, 2 2)), ((50 50, 51 50, 51 51, 50 50)))", "MULTIPOINT (EMPTY, (1 1), (2 2))", "MULTIPOINT ((NaN 0), (1 1))"};
+        int g = lit(C[r.below(7)]); if (g < 0) return;
+        static const char* F[] = {"GEOSClusterDBSCAN_r", "GEOSClusterGeometryDistance_r", "GEOSClusterGeometryIntersects_r", "GEOSClusterEnvelopeDistance_r", "GEOSClusterEnvelopeIntersects_r"};
+        int ci = callOn(F[r.below(5)], g, 10); if (ci < 0) return;
+        call1("GEOSClusterInfo_getNumClusters_r", {O(ci)});
+        long nc = (long) ((const geos::operation::cluster::Clusters*) e.c.slots[ci].p)->getNumClusters();
+        int ops = r.range(3, 7);
+        for (int i = 0; i < ops; i++) { static const long OFF[] = {0, 0, 1, -1, -2, 2, 100000000, -1000}; long idx = r.chance(70) ? (long) r.below((uint64_t) (nc + 1)) + (r.chance(25) ? OFF[r.below(8)] : 0) : nc + OFF[r.below(8)];
+            switch (r.below(3)) { case 0: call1("GEOSClusterInfo_getClusterSize_r", {O(ci), I(idx)}); break; case 1: call1("GEOSClusterInfo_getInputsForClusterN_r", {O(ci), I(idx)}); break;
+                default: call1("GEOSClusterInfo_getClustersForInputs_r", {O(ci)}); } }
+        stat["scenario_cluster"]++;
+    }
+    // ---- SRID propagation per geometry class: one literal of every class (empty and not) gets a non-zero SRID and is then given as FIRST argument to
+    // several constructive calls (clone, transform, reverse, envelope, ... : whatever the table classifies as constructive with a leading geometry)
+    void scenarioSrid() {
+        static const char* W[] = {"POINT (1 2)", "POINT EMPTY", "LINESTRING (0 0, 2 2, 4 0)", "LINESTRING EMPTY", "LINEARRING (0 0, 4 0, 4 4, 0 0)", "POLYGON ((0 0, 6 0, 6 6, 0 6, 0 0), (1 1, 2 1, 2 2, 1 1))",
+            "POLYGON EMPTY", "MULTIPOINT ((0 0), (3 3))", "MULTILINESTRING ((0 0, 1 1), (2 2, 3 5))", "MULTIPOLYGON (((0 0, 2 0, 2 2, 0 0)), ((5 5, 7 5, 7 7, 5 5)))", "GEOMETRYCOLLECTION (POINT (1 1), LINESTRING (0 0, 3 3))",
+            "GEOMETRYCOLLECTION EMPTY", "CIRCULARSTRING (0 0, 1 1, 2 0)", "CIRCULARSTRING EMPTY", "COMPOUNDCURVE ((0 0, 2 0), CIRCULARSTRING (2 0, 3 1, 4 0))", "COMPOUNDCURVE EMPTY", "COMPOUNDCURVE ((0 0, 2 0, 2 2))",
+            "CURVEPOLYGON (COMPOUNDCURVE (CIRCULARSTRING (0 0, 1 1, 2 0), (2 0, 0 0)))", "CURVEPOLYGON EMPTY", "MULTICURVE ((0 0, 1 1), CIRCULARSTRING (0 0, 1 1, 2 0))", "MULTICURVE EMPTY",
+            "MULTISURFACE (((0 0, 1 0, 1 1, 0 0)), CURVEPOLYGON (CIRCULARSTRING (5 5, 6 6, 7 5, 6 4, 5 5)))", "MULTISURFACE EMPTY", "GEOMETRYCOLLECTION (COMPOUNDCURVE ((0 0, 2 0, 2 2)), POINT (1 1))"};
+        int g = lit(W[r.below(sizeof W / sizeof W[0])]); if (g < 0) return;
+        static const long SR[] = {4326, 1, 32633, -1, 2147483647};
+        call1("GEOSSetSRID_r", {O(g), I(SR[r.below(5)])});
+        std::vector<size_t> cand; for (size_t k = 0; k < FNS.size(); k++) if (FNS[k].cat == "constr" && !FNS[k].spec.empty() && FNS[k].spec[0] == "g") cand.push_back(k);
+        static const char* FIRST[] = {"GEOSGeom_clone_r", "GEOSGeom_transformXY_r", "GEOSGeom_transformXYZ_r"};
+        int calls = r.range(3, 7);
+        for (int i = 0; i < calls && !cand.empty(); i++) {
+            const Fn& f = (i == 0 || r.chance(25)) ? FNS[FNIDX[FIRST[r.below(3)]]] : FNS[cand[r.below(cand.size())]];
+            std::vector<Val> a; if (!pick(f, a)) continue;
+            if (g >= (int) e.c.slots.size() || !e.c.slots[g].live) break;
+            a[0] = O(g); e.doCall(f, a, {}); }
+        stat["scenario_srid"]++;
+    }
     void run(int len) {
         // C12_FOCUS=<entry point>: make one function dominate (used to look for a failing call after a table proof broke)
         if (const char* fo = getenv("C12_FOCUS")) { auto it = FNIDX.find(fo); if (it != FNIDX.end()) { long tot = 0; for (auto& f : FNS) tot += f.weight; FNS[it->second].weight = (int) tot; } }
@@ -795,7 +958,8 @@ struct Gen {
         // start with a few literals so that most functions are callable
         int nlit = r.range(2, 4);
         for (int i = 0; i < nlit; i++) { const Fn& f = FNS[FNIDX["GEOSGeomFromWKT_r"]]; std::vector<Val> a; if (pick(f, a)) e.doCall(f, a, {}); }
-        { int sc = (int) r.below(100); if (sc < 14) scenarioPair(); else if (sc < 24) scenarioWindow(); else if (sc < 29) scenarioLongText(); }
+        { int sc = (int) r.below(100); if (sc < 14) scenarioPair(); else if (sc < 24) scenarioWindow(); else if (sc < 29) scenarioLongText();
+          else if (sc < 38) scenarioCtorOwnership(); else if (sc < 44) scenarioTree(); else if (sc < 48) scenarioCluster(); else if (sc < 55) scenarioSrid(); }
         for (int step = 0; step < len; step++) {
             for (int tries = 0; tries < 20; tries++) {
                 long w = (long) r.below((uint64_t) total); size_t k = 0; while (w >= FNS[k].weight) { w -= FNS[k].weight; k++; }
@@ -955,7 +1119,7 @@ static ChildResult runChild1(const std::function<void(Exec&, std::map<std::strin
         close(pfd[0]); dup2(efd, 2); close(efd);
         struct rlimit rl; rl.rlim_cur = rl.rlim_max = 0; setrlimit(RLIMIT_CORE, &rl);
         Exec e; e.out = pfd[1]; e.leakAttr = leakAttr;
-        if (leakAttr) __sanitizer_install_malloc_and_free_hooks(allocHook, freeHook);
+        g_tagAllocs = leakAttr; __sanitizer_install_malloc_and_free_hooks(allocHook, freeHook);
         e.c.h = GEOS_init_r(); GEOSContext_setNoticeHandler_r(e.c.h, noticeh); GEOSContext_setErrorHandler_r(e.c.h, errorh);
         std::map<std::string, long> st;
         body(e, st);
@@ -1038,8 +1202,11 @@ static ChildResult runChild(const std::function<void(Exec&, std::map<std::string
     return r;
 }
 
+#include "c12_own.h"
+
 int main(int argc, char** argv) {
     registerAll();
+    if (argc >= 3 && (std::string(argv[1]) == "ctor-own" || std::string(argv[1]) == "replay-own")) return own::mainOwn(argc, argv);
     if (argc >= 2 && std::string(argv[1]) == "list") { for (auto& f : FNS) printf("%s%s\n", f.cat == "interrupt" ? "#global " : "", f.name.c_str()); return 0; }
     if (argc < 3) { fprintf(stderr, "usage: c12 api-seq <seed> <n> <outbase> | replay <file> [-v] | list\n"); return 2; }
     std::string stream = argv[1];
